@@ -88,6 +88,8 @@ func c03(r *ev.Result, tier string) {
 		budget = 10 * time.Minute
 	}
 	exploreProfiles(r, budget, c03Profiles(isQuick(tier))...)
+	/* The HTTP seam: the same clauses through the real handlers over TLS. */
+	c03HTTP(r)
 	/* The terminal seam: the real Shell on a pty shows exactly what the
 	operator channel carries, in order, however far behind it is. */
 	maxLen := 4
